@@ -292,6 +292,14 @@ func init() {
 		k := ex.cint(a[0], "wfid")
 		return strV{s: fmt.Sprintf("wf-%d", k)}, false
 	}
+	V["verifWorkflowIDForShard"] = func(ex *Exec, th *Thread, fn *ssa.Function, a []Value) (Value, bool) {
+		k := ex.cint(a[0], "wfid")
+		shard := int(ex.cint(a[1], "shard"))
+		n := ex.cint(a[2], "n")
+		id := fmt.Sprintf("wf-%d", k)
+		ex.wfShard[fmt.Sprintf("ns_%s:%d", id, n)] = shard
+		return strV{s: id}, false
+	}
 	V["verifStatusCode"] = func(ex *Exec, th *Thread, fn *ssa.Function, a []Value) (Value, bool) {
 		iv, _ := a[0].(ifaceV)
 		if iv.t == nil {
